@@ -7,7 +7,7 @@
 From Coq Require Import List NArith Bool String.
 From Verif Require Import Kv.KeyOrd Kv.AList Kv.Spec Kv.Mem Kv.Sql Kv.Refine Kv.Facts Kv.KvGen
   Kv.KvCorr Gen.KvSql.
-From Verif Require Import Kv.Own Kv.OwnSkel Kv.OwnProofs Kv.Tables Kv.TablesProofs Gen.KvMemOwn.
+From Verif Require Import Kv.Own Kv.OwnSkel Kv.OwnProofs Kv.Tables Kv.TablesProofs Kv.Hashed Gen.KvMemOwn.
 Import ListNotations.
 Local Open Scope N_scope.
 
@@ -153,6 +153,47 @@ Theorem C05_walk_window : forall (l : table) off n i,
 Proof. exact (@window_nth (key * entry)). Qed.
 Print Assumptions C05_walk_window.
 
+(** the four walks of the reference map, by definition of [spec_step] *)
+Theorem C05_walk_exact : forall s f c off n desc,
+  spec_step s (BWalk f) = (s, walk_result f s) /\
+  spec_step s (BWalkClass c f) = (s, walk_result f (filter (has_class c) s)) /\
+  spec_step s (BWalkPartial off n desc f) = (s, walk_result f (window off n (dir desc s))) /\
+  spec_step s (BWalkPartialClass c off n desc f)
+  = (s, walk_result f (window off n (dir desc (filter (has_class c) s)))).
+Proof. exact walk_exact. Qed.
+Print Assumptions C05_walk_exact.
+
+(** the window holds min(n, what is left after the offset) entries: no more
+    than the limit, nothing beyond the end *)
+Theorem C05_walk_window_length : forall (l : table) off n,
+  List.length (window off n l)
+  = Nat.min (N.to_nat (N.min n (lenN l))) (List.length l - N.to_nat (N.min off (lenN l))).
+Proof. exact (@window_length (key * entry)). Qed.
+Print Assumptions C05_walk_window_length.
+
+(** what a backend shows to the callback is the list the reference map
+    determines, whatever the callback is: a callback that keeps state between
+    entries sees the same sequence on the memory and on the SQL backend *)
+Theorem C05_backend_walks_exact : forall t f c off n desc,
+  nodupk t -> off < two63 -> n < two63 ->
+  (snd (mem_step t (BWalk f)) = walk_result f (abs t) /\
+   snd (mem_step t (BWalkClass c f)) = walk_result f (filter (has_class c) (abs t)) /\
+   snd (mem_step t (BWalkPartial off n desc f)) = walk_result f (window off n (dir desc (abs t))) /\
+   snd (mem_step t (BWalkPartialClass c off n desc f))
+   = walk_result f (window off n (dir desc (filter (has_class c) (abs t))))) /\
+  (snd (sql_step gen_sqlite_methods t (BWalk f)) = walk_result f (abs t) /\
+   snd (sql_step gen_sqlite_methods t (BWalkClass c f)) = walk_result f (filter (has_class c) (abs t)) /\
+   snd (sql_step gen_sqlite_methods t (BWalkPartial off n desc f))
+   = walk_result f (window off n (dir desc (abs t))) /\
+   snd (sql_step gen_sqlite_methods t (BWalkPartialClass c off n desc f))
+   = walk_result f (window off n (dir desc (filter (has_class c) (abs t))))).
+Proof.
+  exact (fun t f c off n desc Hn Ho Hl =>
+    conj (backend_walks_exact mem_step t f c off n desc mem_step_refines Hn Ho Hl)
+         (backend_walks_exact _ t f c off n desc gen_sqlite_step_refines Hn Ho Hl)).
+Qed.
+Print Assumptions C05_backend_walks_exact.
+
 (** ** Keys *)
 
 Theorem C05_ordered_keys_verbatim : forall hk k,
@@ -171,6 +212,20 @@ Theorem C05_unordered_any_key : forall hk k,
   map_key gen_max_key_len false hk k = Some (hk k).
 Proof. exact (unordered_any_key gen_max_key_len). Qed.
 Print Assumptions C05_unordered_any_key.
+
+(** An unordered store hands hashed keys to the backend.  For every history
+    of keyed calls, Count and Clear whose keys the hash keeps apart it returns
+    what the map keyed by the user's own keys returns - a map that accepts
+    every key.  (Full walks visit the same entries in the order of the hashed
+    keys, "the store's key order"; partial walks are refused.)  The premise
+    is needed: [C05_colliding_keys_refuted]. *)
+Theorem C05_unordered_is_user_key_map : forall maxlen hk jv K uops,
+  (forall a b, In a K -> In b K -> hk a = hk b -> a = b) ->
+  Forall (uop_in K) uops ->
+  snd (run (kv_step maxlen false hk jv spec_step) [] uops)
+  = snd (run (kv_step maxlen false (fun k => k) jv spec_step) [] uops).
+Proof. exact unordered_is_user_key_map. Qed.
+Print Assumptions C05_unordered_is_user_key_map.
 
 (** The two panic sites of the memory walk (slice bounds in partialKeys, nil
     entry in walkKeys) are unreachable whenever offset + limit does not wrap
@@ -506,3 +561,28 @@ Example C05_nonvacuous_tables :
   = [RErr EOther; RUnit; RUnit; RUnit; RUnit; RCount 2; RBytes [50]; RUnit; RErr EOther; RBytes [49];
      RUnit; RCount 0; RErr EOther].
 Proof. vm_compute. split; reflexivity. Qed.
+
+Example C05_colliding_keys_refuted :
+  let hk := fun _ : key => [0] in
+  let uops := [UAdd [97] [49]; UAdd [98] [50]; UCount] in
+  snd (run (kv_step 255 false hk (fun _ => true) spec_step) [] uops) = [RUnit; RErr EExists; RCount 1] /\
+  snd (run (kv_step 255 false (fun k => k) (fun _ => true) spec_step) [] uops) = [RUnit; RUnit; RCount 2].
+Proof. exact colliding_keys_refuted. Qed.
+
+(** a history of the unordered-store theorem with a hash that is injective on
+    the keys used (it prefixes a byte) *)
+Example C05_nonvacuous_unordered :
+  let hk := fun k : key => 104 :: k in
+  let K := [[97]; [98]; List.repeat 97 300] in
+  let uops := [UAdd [97] [49]; UAddClass [98] ex_c [50]; UAdd (List.repeat 97 300) [51]; UReplace [97] [52];
+               UGet [97]; UMutate [98] (fun _ => MSet [53]); URemove (List.repeat 97 300); UCount] in
+  Forall (uop_in K) uops /\
+  (forall a b, In a K -> In b K -> hk a = hk b -> a = b) /\
+  snd (run (kv_step gen_max_key_len false hk Kv.KvCorr.json_ok spec_step) [] uops)
+  = [RUnit; RUnit; RUnit; RUnit; RBytes [52]; RUnit; RUnit; RCount 2].
+Proof.
+  split; [|split].
+  - repeat (apply Forall_cons); try apply Forall_nil; cbn [uop_in In]; auto 10.
+  - intros a b _ _ H. now injection H.
+  - vm_compute. reflexivity.
+Qed.
